@@ -19,9 +19,9 @@ Statement clauses checked on the REAL `yamlpath.YAMLPath` (oracle written from t
                  notation, canonical text, str operand) compare equal; a neighbour sequence S' with
                  different segments compares unequal (`==` False and `!=` True).
  (4) append/pop: `YAMLPath(render(S[:-1])).append(render(S[-1]))` has segments S, and `pop()` then
-                 returns that last segment and restores the segments, the notation and `==` to the
-                 path before.  (If only the *text* `original` differs afterwards while the path is
-                 equal, it is counted as an out-of-scope observation, not a witness.)
+                 returns that last segment and restores the segments, the notation, `==` and the
+                 text `original` of the path before.  (Only exception, counted as an out-of-scope
+                 observation: the root path written "/" comes back as "" -- both are the empty path.)
 
 Excluded by the statement (counted with out_of_scope, never a witness): dot-notation texts whose
 first character is '/'; keys that begin with '&', contain '*' or a backslash, or are empty.
@@ -226,7 +226,7 @@ def observe(path, unescaped_segments=None, depth=0):
         elif typ is T.TRAVERSE:
             out.append(("trav",))
         else:
-            out.append(("?", typ.name, repr(attrs)))
+            out.append(("?", getattr(typ, "name", repr(typ)), repr(attrs)))
     return out
 
 
@@ -584,8 +584,15 @@ def ev_append_pop(entries, sep, oos=None):
         out.append(Fail("pop", kind, d[2], shown, Eb))
     elif not still_eq:
         out.append(Fail("pop", "not-equal-to-path-before", "", shown, True))
-    elif after_text != btext and oos is not None:
-        oos.append("append-pop-text-differs-but-path-equal")
+    elif after_text != btext:
+        if btext == "/" and after_text == "":
+            # the root path in slash notation comes back as the empty text: both are the empty path
+            # (no segments, ==); counted, not a witness
+            if oos is not None:
+                oos.append("append-pop-root-slash-becomes-empty-text")
+        else:
+            out.append(Fail("pop", "text-not-restored", "segments and == restored, text %r -> %r" % (btext, after_text),
+                            shown, btext))
     if Eb and after_sep is not before_sep and not d:
         out.append(Fail("pop", "notation-changed", "", after_sep.name, before_sep.name))
     return out
